@@ -29,7 +29,7 @@ RULE = ("cases = interleaved histories of construct/run operations of 2..4 DDLPa
         "for scripts of <= 3 statements, seeded samples for 3-4 threads; (3) free-running stress, 8-16 threads, "
         "sys.setswitchinterval(1e-6); (4, thorough) line-level sleep(0) injection in parser.py / ddl_parser.py through sys.monitoring. "
         "Non-trivial = a history with >= 2 live objects; distinct = distinct schedule (operation order / yield-point trace)."
-        " Added after seeded defects: twin specs (same text, different silent / normalize_names / debug / input.regex), a spec that alters a table only another spec defines, word echo (58 statement keywords first met as names in 22 name positions by other objects, then used as keywords).")
+        " Added after seeded defects: twin specs (same text, different silent / normalize_names / debug / input.regex), a spec that alters a table only another spec defines, word echo (58 statement keywords first met as names in 22 name positions by other objects, then used as keywords); pairs in a fresh interpreter whose first object uses rarely used constructor options (log_level, log_file, debug); concurrent run(dump=True) into one not-yet-existing directory; a blocked operation is a verdict.")
 ASSUMPTIONS = ["schedules are enumerated at statement granularity; finer interleavings are only sampled (free-running and line-level injection)",
                "CPython with the GIL (no claim about free-threaded builds)"]
 MIN_EVENTS = {"run_return": 200}
@@ -108,6 +108,37 @@ def solo_reference_of(spec):
             "except Exception as e:\n    out = ['exc', type(e).__name__]\nprint(json.dumps(out))\n")
     r = subprocess.run([sys.executable, "-B", "-c", code], input=json.dumps(spec), capture_output=True, text=True, timeout=120, env=dict(os.environ))
     return json.loads(r.stdout.strip().splitlines()[-1])
+
+
+FIRST_OBJECTS = [{"log_level": 10}, {"log_level": "DEBUG"}, {"debug": True}, {"silent": False}, {"normalize_names": True}, {"log_level": 50}, {"log_file": "vf_first.log"}]
+
+
+def first_in_process(ctx, refs, a_ctor, b_idx):
+    """a fresh interpreter in which parser A (rarely used constructor options) is the FIRST object ever built, then B: whatever A set up
+    process-wide (logging configuration, module state) must leave B as it is alone"""
+    import tempfile
+    code = ("import json, sys\nfrom simple_ddl_parser import DDLParser\na, b = json.loads(sys.stdin.read())\n"
+            "try:\n    DDLParser(a['ddl'], **a['ctor']).run()\nexcept Exception:\n    pass\n"
+            "try:\n    out = ['ok', DDLParser(b['ddl'], **b.get('ctor', {})).run(**b.get('run', {}))]\n"
+            "except Exception as e:\n    out = ['exc', type(e).__name__]\nprint('VFRESULT' + json.dumps(out))\n")
+    a = {"ddl": "CREATE TABLE first_t (a int, b varchar(3));\n", "ctor": a_ctor}
+    d = tempfile.mkdtemp(prefix="vf_c15f_")
+    try:
+        r = subprocess.run([sys.executable, "-B", "-c", code], input=json.dumps([a, SPECS[b_idx]]), capture_output=True, text=True, timeout=120, env=dict(os.environ), cwd=d)
+    finally:
+        import shutil
+        shutil.rmtree(d, ignore_errors=True)
+    ctx.evaluated()
+    ctx.nontrivial_case(digest("first|%s|%d" % (canon(a_ctor), b_idx)))
+    ctx.obs["first_object_pairs"] += 1
+    lines = [l for l in r.stdout.splitlines() if l.startswith("VFRESULT")]
+    if not lines:
+        ctx.inconclusive_because("first-object pair produced no result: " + (r.stderr or r.stdout)[-200:])
+        return
+    got = json.loads(lines[-1][len("VFRESULT"):])
+    if got != refs[b_idx]:
+        ctx.violation("depends_on_first_object_of_the_process", {"gen": "first_in_process", "first_ctor": a_ctor, "spec": b_idx},
+                      {"first_object_ctor": a_ctor, "observed": short(got, 300), "alone": short(refs[b_idx], 300)})
 
 
 def word_echo(ctx, word, use, mode, how):
@@ -289,6 +320,61 @@ def stress(ctx, refs, nthreads, rounds, label):
                       {"first_errors": errs[:3], "M-OWN": explain(nown)})
 
 
+def dump_stress(ctx, nthreads, rounds):
+    """objects in concurrent threads asked to dump into the SAME directory that does not exist yet (a new one per round, distinct file names):
+    every run() must return what it returns alone and every dump file must hold its own result"""
+    if ABORT[0]:
+        return
+    import shutil
+    import tempfile
+    root = tempfile.mkdtemp(prefix="vf_c15d_")
+    specs = [{"ddl": "CREATE TABLE du%d (a int, b varchar(%d));\nCREATE SEQUENCE sq%d START %d;\n" % (t, t + 1, t, t)} for t in range(nthreads)]
+    alone = []
+    for t, sp in enumerate(specs):
+        d0 = os.path.join(root, "alone%d" % t)
+        alone.append(json.loads(json.dumps(construct(sp).run(dump=True, dump_path=d0, file_path="f%d.sql" % t))))
+    errs = []
+    old = sys.getswitchinterval()
+    sys.setswitchinterval(1e-6)
+    try:
+        for r in range(rounds):
+            d = os.path.join(root, "round%d" % r, "schemas")
+            barrier = threading.Barrier(nthreads)
+            objs = [construct(sp) for sp in specs]
+
+            def body(t):
+                try:
+                    barrier.wait(30)
+                    got = ["ok", json.loads(json.dumps(objs[t].run(dump=True, dump_path=d, file_path="f%d.sql" % t)))]
+                except Exception as e:
+                    got = ["exc", type(e).__name__, str(e)[:120]]
+                if got != ["ok", alone[t]] and len(errs) < 10:
+                    errs.append({"round": r, "thread": t, "observed": short(got, 200)})
+                else:
+                    try:
+                        on_disk = json.load(open(os.path.join(d, "f%d_schema.json" % t)))
+                        if on_disk != alone[t] and len(errs) < 10:
+                            errs.append({"round": r, "thread": t, "dump_file_differs": short(on_disk, 200)})
+                    except Exception as e:
+                        if len(errs) < 10:
+                            errs.append({"round": r, "thread": t, "dump_file": "%s: %s" % (type(e).__name__, str(e)[:100])})
+
+            ts = [threading.Thread(target=body, args=(t,), daemon=True) for t in range(nthreads)]
+            for t in ts:
+                t.start()
+            for t in ts:
+                t.join(60)
+            ctx.obs["concurrent_dump_runs"] += nthreads
+            if errs:
+                break
+    finally:
+        sys.setswitchinterval(old)
+        shutil.rmtree(root, ignore_errors=True)
+    ctx.evaluated(rounds * nthreads)
+    if errs:
+        ctx.violation("concurrent_dump_interference", {"gen": "dump_stress", "threads": nthreads, "rounds": rounds}, {"first_errors": errs[:3]})
+
+
 def with_line_injection(ctx, refs, seed):
     """thorough: sleep(0) at random statement starts of parser.py / ddl_parser.py (sys.monitoring LINE events)"""
     mon = getattr(sys, "monitoring", None)
@@ -328,6 +414,10 @@ def with_line_injection(ctx, refs, seed):
 
 
 def check_case(ctx, case):
+    if case.get("gen") == "dump_stress":
+        return dump_stress(ctx, case["threads"], case["rounds"] * 3)
+    if case.get("gen") == "first_in_process":
+        return first_in_process(ctx, solo_references(), case["first_ctor"], case["spec"])
     if case.get("gen") == "word_echo":
         from vf.gen import kwuses
         use, mode = kwuses.USES[case["word"]]
@@ -433,9 +523,17 @@ def run_shard(ctx):
             jj += 1
             if ctx.mine(jj):
                 word_echo(ctx, word, use, mode, how)
+    # (5) B after a first object with rarely used constructor options, each pair in its own interpreter
+    jj = 0
+    for a_ctor in FIRST_OBJECTS:
+        for b_idx in (0, 2, 10, 12, 14, 21):
+            jj += 1
+            if ctx.mine(jj):
+                first_in_process(ctx, refs, a_ctor, b_idx)
     for bl in BLOCKED:
         ctx.violation("operation_blocked_by_another_object", {"gen": "single_object_in_a_thread", "spec": bl["spec"]}, bl)
     del BLOCKED[:]
+    dump_stress(ctx, 6, 40 if ctx.tier == "quick" else 400)
     # (3) free-running stress
     if ctx.tier == "quick":
         stress(ctx, refs, 8, 10, "free_running")
